@@ -17,7 +17,8 @@ LEVEL = "exploration"
 TIMEOUT = 600
 BUDGET = {"quick": 200, "thorough": 2000}
 REQUIRED_MONITORS = ["diagnostics"]
-RULE = ("Each documented static rule (undefined variable / function / memory / entity, redefinition, assignment to an "
+RULE = ("[87 rule variants: each documented rule in several syntactic positions / spellings, embedded at 6 positions] "
+        "Each documented static rule (undefined variable / function / memory / entity, redefinition, assignment to an "
         "immutable name, wrong kind for a declared type or parameter, wrong argument count, direct and indirect "
         "recursion, duplicate bundle type, Bundle OP Bundle, bare bundle comparison, absent bundle member, unknown "
         "signal, reserved signal-W in every position, write type contradicting the cell, second write, zero loop step, "
